@@ -279,6 +279,35 @@ def _self_evidence(cx, site):
     return False, None
 
 
+@obligation("PANIC.scan_bounds", ["C20", "C09"], floor=2, kind="argument shape",
+            why="scanning the unapplied tail from an index the log no longer holds (below a pending snapshot) is a fatal! in a contract-abiding run")
+def scan_bounds(cx):
+    from ..engine import call_args
+    from .vote import is_f
+    tgt = cx.sfx("Raft::has_unapplied_conf_changes")
+    n = 0
+    for c in cx.prog.call_sites_of(tgt):
+        args = call_args(cx, c)
+        lo, hi = args[1], args[2]
+        key = cx.site_key(c, "scan")
+        ok_hi = hi[0] == "bin" and hi[1] == "Add" and any(is_f(x, "RaftLog.committed") for x in hi[2:4]) and ("int", 1) in hi[2:4]
+        cx.check(ok_hi, key + ":hi", "the scan ends at committed + 1 (found %s)" % show(hi)[:100], c)
+        uses_applied = any(is_f(x, "RaftLog.applied") for x in walk(lo))
+        uses_commit = any(is_f(x, "RaftLog.committed") for x in walk(lo))
+        if uses_applied:
+            # `applied` lags behind a received-but-unprocessed snapshot: entries in (applied, snapshot.index] do not exist
+            alts = lo[3] if lo[0] == "phi" else ()
+            snap_alt = [a for a in alts if any(x[0] == "call" and (x[1].endswith("Unstable::maybe_first_index") or x[1].endswith("RaftLog::first_index")) for x in walk(a))]
+            app_alt = [a for a in alts if a[0] == "bin" and a[1] == "Add" and any(is_f(x, "RaftLog.applied") for x in a[2:4]) and ("int", 1) in a[2:4]]
+            viamax = lo[0] == "call" and lo[1].endswith("::max") and any(x[0] == "call" and x[1].endswith("first_index") for x in walk(lo))
+            cx.check((len(snap_alt) == 1 and len(app_alt) == 1 and len(alts) == 2) or viamax, key + ":lo",
+                     "a scan that starts at applied + 1 starts at the pending snapshot's first index instead when one is pending (found %s)" % show(lo)[:200], c)
+        else:
+            cx.check(uses_commit, key + ":lo", "the scan starts at applied + 1 or after the old commit index (found %s)" % show(lo)[:120], c)
+        n += 1
+    cx.check(n >= 2, "floor", "scan call sites were found")
+
+
 @obligation("PANIC.inventory", ["C20"], floor=1, kind="inventory (evidence only)",
             why="lists the panic-capable sites that remain undecided")
 def inventory(cx):
